@@ -128,6 +128,13 @@ class C10(core.Check):
         # reuse: C03 / C05 corpora (lock-step BFS)
         from checks import c03, c05
         for c in c03.C03().cases("quick" if tier == "quick" else "thorough"):
+            if c["family"] == "two-cells":
+                if c["opts"]["optimize"]:
+                    out.append({"kind": "stateful", "tag": "c03-two:" + c["tag"] + str(c["explicit"]), "stmts": c["stmts"],
+                                "inputs": c["inputs"], "outputs": c["outputs"], "domains": c["domains"]})
+                continue
+            if c["readers"] == "mix+arith":
+                continue     # never settles on the pinned tree (C03-F1): nothing to compare at settled states
             if c["opts"]["optimize"] and (tier == "thorough" or c["readers"] in ("arith+cmp", "arith+cmp+lamp")):
                 out.append({"kind": "stateful", "tag": "c03:" + c["v"] + "/" + c["c"] + "/" + c["readers"] + str(c["explicit"]),
                             "stmts": c["stmts"], "inputs": c["inputs"], "outputs": c["outputs"], "domains": c["domains"]})
